@@ -129,6 +129,19 @@ def install():
                 w._on_task(self)
     asyncoro.Task = MTask
     ns.MTask = MTask
+    # ---- M-PC: every fork of the program counter (the class name is looked up at call time in typed_asyncoro) --
+    ns.orig_PCW = asyncoro._ProgramCounterWrapper
+
+    class MPCW(ns.orig_PCW):
+        __slots__ = ()
+
+        def __init__(self, rt, coro):
+            parent_depth = rt._program_counter[1]
+            super().__init__(rt, coro)
+            w = _W
+            if w is not None:
+                w._on_fork(rt, parent_depth, coro)
+    asyncoro._ProgramCounterWrapper = MPCW
     return ns
 
 
@@ -357,6 +370,9 @@ class World:
         self.tasks_created = collections.Counter()
         self.pending_tasks = [set() for _ in range(m)]
         self.sched_hash = hashlib.blake2b(digest_size=8)
+        self.forks = 0
+        self.deferred_bumps = set()
+        self.tasks = None
         self.sched_log = [] if record_sched else None
         self.status = None
         if clear_caches:
@@ -412,6 +428,21 @@ class World:
             s.discard(tk)
             self.progress += 1
         task.add_done_callback(done)
+
+    def _on_fork(self, rt, parent_depth, coro):
+        """a pc fork; 'deferred' = the top-level counter is bumped from inside a task other than the party's main task"""
+        self.forks += 1
+        if parent_depth == 0 and self.tasks is not None:
+            try:
+                cur = asyncio.current_task(loop=rt._loop)
+            except RuntimeError:
+                cur = None
+            if cur is not None and cur is not self.tasks[rt.pid]:
+                try:
+                    enclosing = cur.get_coro().__qualname__
+                except Exception:
+                    enclosing = '?'
+                self.deferred_bumps.add((enclosing, getattr(coro, '__qualname__', '?')))
 
     def _on_close(self, src, dst):
         self.close_events.append((src, dst, len(self.pending_tasks[src])))
